@@ -28,52 +28,53 @@ Section Machine.
     destruct (step d i s c) as [s' x]. cbn [length]. now rewrite IH.
   Qed.
 
-  (* a sticky error: every call but Reset returns it and changes nothing *)
+  (* a sticky error: every call but Reset returns it and changes nothing (emitted or not) *)
+  Lemma set_err_stuck e' e s : err s = Some e -> set_err e' s = s.
+  Proof. unfold set_err. now intros ->. Qed.
+
   Lemma step_stuck i s c e :
-    err s = Some e -> emitted s = false -> is_reset c = false -> step d i s c = (s, stuck_res e).
+    err s = Some e -> is_reset c = false -> step d i s c = (s, stuck_res e).
   Proof.
-    intros He Hm Hc. destruct c as [a| |t k|a|q|a|]; try discriminate Hc; cbn [step].
-    - unfold up, guarded. rewrite Hm, He. cbn [mut]. now rewrite He.
-    - unfold add_checks, guarded. rewrite Hm, He. cbn [mut]. now rewrite He.
-    - unfold add_block, guarded. rewrite Hm, He. cbn [mut]. now rewrite He.
-    - unfold add_seq, guarded. rewrite Hm, He. cbn [mut]. now rewrite He.
-    - unfold add_action, guarded. rewrite Hm, He. cbn [mut]. now rewrite He.
-    - unfold emit. rewrite Hm, He. cbn [of_err]. now rewrite He.
+    intros He Hc.
+    assert (G : forall body, mut (guarded i s body) s = (s, stuck_res e)).
+    { intros body. unfold guarded. destruct (emitted s).
+      - rewrite (set_err_stuck _ e s He). cbn [mut]. now rewrite He.
+      - rewrite He. cbn [mut]. now rewrite He. }
+    destruct c as [a| |t k|a|q|a|]; try discriminate Hc; cbn [step]; try apply G.
+    unfold emit. rewrite He. cbn [of_err]. now rewrite He.
   Qed.
 
   Lemma run_stuck l : forall i s e,
-    err s = Some e -> emitted s = false -> no_reset l = true ->
+    err s = Some e -> no_reset l = true ->
     run d i s l = map (fun _ => stuck_res e) l.
   Proof.
-    induction l as [|c l IH]; intros i s e He Hm Hl; [reflexivity|].
+    induction l as [|c l IH]; intros i s e He Hl; [reflexivity|].
     cbn [no_reset forallb] in Hl. apply andb_true_iff in Hl as [Hc Hl].
     apply negb_true_iff in Hc. cbn [run map].
-    rewrite (step_stuck i s c e He Hm Hc). f_equal. now apply IH.
+    rewrite (step_stuck i s c e He Hc). f_equal. now apply IH.
   Qed.
 
-  (* after a successful Plan() *)
-  Lemma run_done l : forall i s,
-    emitted s = true -> no_reset l = true -> run d i s l = done_results (err s) i l.
+  (* after a successful Plan(): the first call records a use-after-emit error, which then sticks *)
+  Lemma step_done i s c :
+    emitted s = true -> err s = None -> is_reset c = false ->
+    step d i s c = (set_err (EUseAfterEmit, i) s, stuck_res (EUseAfterEmit, i)).
   Proof.
-    induction l as [|c l IH]; intros i s Hm Hl; [reflexivity|].
-    cbn [no_reset forallb] in Hl. apply andb_true_iff in Hl as [Hc Hl].
-    apply negb_true_iff in Hc.
-    assert (Hmut : forall o, o = Next (set_err (EUseAfterEmit, i) s) ->
-              run d (S i) (fst (mut o s)) l = done_results (Some (EUseAfterEmit, i)) (S i) l
-              /\ snd (mut o s) = stuck_res (EUseAfterEmit, i)).
-    { intros o ->. cbn [mut fst snd]. split; [|reflexivity]. rewrite IH; [reflexivity|exact Hm|exact Hl]. }
-    destruct c as [a| |t k|a|q|a|]; try discriminate Hc; cbn [run step done_results].
-    - destruct (Hmut (up i s)) as [H1 H2]; [unfold up, guarded; now rewrite Hm|].
-      destruct (mut (up i s) s) as [s' x]. cbn [fst snd] in H1, H2. now rewrite H1, H2.
-    - destruct (Hmut (add_checks i t k s)) as [H1 H2]; [unfold add_checks, guarded; now rewrite Hm|].
-      destruct (mut (add_checks i t k s) s) as [s' x]. cbn [fst snd] in H1, H2. now rewrite H1, H2.
-    - destruct (Hmut (add_block i a s)) as [H1 H2]; [unfold add_block, guarded; now rewrite Hm|].
-      destruct (mut (add_block i a s) s) as [s' x]. cbn [fst snd] in H1, H2. now rewrite H1, H2.
-    - destruct (Hmut (add_seq i q s)) as [H1 H2]; [unfold add_seq, guarded; now rewrite Hm|].
-      destruct (mut (add_seq i q s) s) as [s' x]. cbn [fst snd] in H1, H2. now rewrite H1, H2.
-    - destruct (Hmut (add_action i a s)) as [H1 H2]; [unfold add_action, guarded; now rewrite Hm|].
-      destruct (mut (add_action i a s) s) as [s' x]. cbn [fst snd] in H1, H2. now rewrite H1, H2.
-    - unfold emit. rewrite Hm. cbn [of_err]. f_equal. now apply IH.
+    intros Hm He Hc.
+    assert (E : err (set_err (EUseAfterEmit, i) s) = Some (EUseAfterEmit, i)).
+    { unfold set_err. now rewrite He. }
+    assert (G : forall body, mut (guarded i s body) s = (set_err (EUseAfterEmit, i) s, stuck_res (EUseAfterEmit, i))).
+    { intros body. unfold guarded. rewrite Hm. cbn [mut]. now rewrite E. }
+    destruct c as [a| |t k|a|q|a|]; try discriminate Hc; cbn [step]; try apply G.
+    unfold emit. rewrite He, Hm. cbv beta iota zeta. rewrite E. cbn [of_err]. reflexivity.
+  Qed.
+
+  Lemma run_done l : forall i s,
+    emitted s = true -> err s = None -> no_reset l = true -> run d i s l = done_results i l.
+  Proof.
+    intros i s Hm He Hl. destruct l as [|c l]; [reflexivity|].
+    cbn [no_reset forallb] in Hl. apply andb_true_iff in Hl as [Hc Hl]. apply negb_true_iff in Hc.
+    unfold done_results. cbn [run map]. rewrite (step_done i s c Hm He Hc). f_equal.
+    apply run_stuck; [|exact Hl]. unfold set_err. now rewrite He.
   Qed.
 
   (* a state in which building goes on *)
@@ -92,13 +93,13 @@ Section Machine.
   Proof.
     intros [He [Hm Hc]] Hr Hs Hend. destruct stop_ as [| |e|]; try contradiction.
     - destruct (Hend eq_refl) as [->|[r ->]]; [reflexivity|].
-      cbn [run step finish]. unfold emit. rewrite Hm, He.
+      cbn [run step finish]. unfold emit. rewrite He, Hm.
       destruct (chain s) as [|f c] eqn:E; [congruence|].
       cbn [of_err err with_emitted]. rewrite He. unfold emit_res. f_equal.
-      rewrite run_done; [cbn [err with_emitted]; now rewrite He|reflexivity|].
+      rewrite run_done; [reflexivity|reflexivity|exact He|].
       cbn [no_reset forallb is_reset negb andb] in Hr. exact Hr.
     - destruct Hs as [c [r [-> Hstep]]]. cbn [run finish map]. rewrite Hstep. f_equal.
       cbn [no_reset forallb] in Hr. apply andb_true_iff in Hr as [_ Hr].
-      apply run_stuck; [reflexivity|exact Hm|exact Hr].
+      apply run_stuck; [|exact Hr]. unfold set_err. now rewrite He.
   Qed.
 End Machine.
